@@ -107,6 +107,10 @@ func (t *SecureTrie) Prove(key []byte, fromLevel uint, proofDb ethdb.Putter) err
 func VerifyProof(rootHash common.Hash, key []byte, proofDb DatabaseReader) (value []byte, nodes int, err error) {
 	key = keybytesToHex(key)
 	wantHash := rootHash
+	if rootHash == emptyRoot {
+		// the empty trie has no nodes: Prove stores nothing, and every key is provably absent
+		return nil, 0, nil
+	}
 	for i := 0; ; i++ {
 		buf, _ := proofDb.Get(wantHash[:])
 		if buf == nil {
